@@ -291,6 +291,14 @@ def r4_required_reaches_graph(chk: Check):
             rec = [c for s2 in n.ast.body for c in walk_local(s2) if isinstance(c, ast.Call) and tail(c) == helper.node.name]
             if src(n.ast.iter) == it_text and len(rec) == 1 and len(rec[0].args) == 1 and src(rec[0].args[0]) == tgt:
                 ok = True
+            if kind == "dict" and len(rec) == 1 and len(rec[0].args) == 1:
+                # other ways of reaching every value of the dict
+                a = src(rec[0].args[0])
+                names = tgt.strip("()").split(", ")
+                if src(n.ast.iter) == f"{hp}.items()" and len(names) == 2 and a == names[1]:
+                    ok = True
+                if src(n.ast.iter) in (hp, f"{hp}.keys()") and a == f"{hp}[{tgt}]":
+                    ok = True
         extra = " (iterating a dict yields its keys)" if kind == "dict" else ""
         chk.require(ok, chk.fkey(helper, what), f"configurations stored as {what} of a parameter are not validated (loops over {desc}{extra}): a required value missing there is accepted at submission", hloc)
     # called for every argument value; required + missing raises unless generated
